@@ -899,6 +899,10 @@ func (f *framer) readTypeInfo() TypeInfo {
 	switch simple.typ {
 	case TypeTuple:
 		n := f.readShort()
+		// every element type takes at least a [short]: the rest of the frame bounds how many there can be
+		if int(n) > len(f.buf)/2 {
+			panic(fmt.Errorf("received invalid tuple element count: %d with %d bytes left in the frame", n, len(f.buf)))
+		}
 		tuple := TupleTypeInfo{
 			NativeType: simple,
 			Elems:      make([]TypeInfo, n),
@@ -918,6 +922,10 @@ func (f *framer) readTypeInfo() TypeInfo {
 		udt.Name = f.readString()
 
 		n := f.readShort()
+		// every field takes at least a name and a type id
+		if int(n) > len(f.buf)/4 {
+			panic(fmt.Errorf("received invalid UDT field count: %d with %d bytes left in the frame", n, len(f.buf)))
+		}
 		udt.Elements = make([]UDTField, n)
 		for i := 0; i < int(n); i++ {
 			field := &udt.Elements[i]
